@@ -1,6 +1,6 @@
 CONSTANTS
   SampleMod = 30
-  MaxOps = 2
+  MaxOps = 1
   Scripted = FALSE
   ExcuseKF = TRUE
   Dump = FALSE
